@@ -321,3 +321,91 @@ def run_bbox(ctx, rep, oracles, solvers_=None, n_quick=30, n_thorough=300, degen
     with ProcessPoolExecutor(max_workers=workers) as ex:
         for r in ex.map(_bb_worker, tasks):
             merge(rep, r)
+
+
+# ------------------------------------------------------------------ C10: storage formats
+
+def _fmt_worker(args):
+    """same problem as dense F-ordered, dense C-ordered and CSC (canonical, and with explicit zeros / int64
+    indices): identical budgets must give the same point (the CSC kernels are the dense kernels on the
+    represented matrix), and converged runs the same solution"""
+    import copy
+    import numpy as np
+    from .. import bbox
+    prop, seed, solver, chunk, n_cases = args
+    rng = random.Random(f"{prop}-{seed}-fmt-{solver}-{chunk}")
+    rep = Report(prop)
+    for c in range(n_cases):
+        if solver == "AndersonCD":
+            case = solvers.gen_case(rng)
+            runner = solvers.run_acd
+            objective = lambda cs, w: solvers.true_obj(cs, w)      # noqa: E731
+        else:
+            case = bbox.gen_bb(rng, solver)
+            runner = bbox.run_case
+            objective = lambda cs, w: cs.objective(w)              # noqa: E731
+        outs = {}
+        for fmt in ("dense", "csc"):
+            c2 = copy.copy(case)
+            c2.sparse = fmt == "csc"
+            r = runner(c2)
+            outs[fmt] = r
+        rep.count(f"fmt:{solver}/{case.df.kind}/{case.pen.kind}", False, ("fmt", solver, chunk, c))
+        d, s_ = outs["dense"], outs["csc"]
+        sig = dict(case.signature(site=f"{solver}.solve"), sparse="both")
+        if (d["err"] is None) != (s_["err"] is None):
+            which, e = ("csc", s_["err"]) if s_["err"] else ("dense", d["err"])
+            cls = e.split(":")[1]
+            explained = cls in ("AttributeError", "ValueError") and ("sparse" in e.lower() or "must implement" in e
+                                                                    or "not compatible" in e)
+            if not explained:
+                rep.violate(f"{solver} solves the problem in one storage format and fails in the other ({which}: {e[:120]})",
+                            dict(sig, kind="format-failure"), case=case.describe(), impl_output=e)
+            continue
+        if d["err"] is not None:
+            continue
+        wd, ws_ = np.asarray(d["out"][0], float), np.asarray(s_["out"][0], float)
+        approx_const = solver in ("FISTA", "GroupBCD")       # sparse constants come from a power iteration
+        tol = case.knobs.get("tol", 1e-4)
+        nonconvex = case.pen.kind in ("mcp", "wmcp", "scad", "l05", "l23", "logsum", "bmcp", "bscad", "l205")
+        kn = case.knobs
+        short = kn.get("max_iter", 1) <= 2 and kn.get("max_epochs", kn.get("max_pn_iter", 1)) <= 6
+        if nonconvex and not short:
+            continue        # long non-convex runs amplify rounding differences (thresholds, extrapolation)
+        if not approx_const:
+            scale = 1 + float(np.max(np.abs(wd))) if wd.size else 1.0
+            if not np.all(np.abs(wd - ws_) <= 1e-6 * scale):
+                if not short and not (d["out"][2] <= tol and s_["out"][2] <= tol):
+                    continue    # long unconverged runs: rounding may separate the trajectories
+                # identical trajectories are a theorem in exact arithmetic; a tie broken differently by rounding
+                # can separate them, so fall back on comparing objectives of converged runs
+                fd_, fs_ = objective(case, wd), objective(case, ws_)
+                conv = d["out"][2] <= tol and s_["out"][2] <= tol
+                if solver == "ProxNewton" and not conv:
+                    # the backtracking test of a prox-Newton step on a quadratic model is exactly 0 in exact
+                    # arithmetic: rounding decides between step 1 and 1/2, in either storage format
+                    continue
+                if not conv or abs(fd_ - fs_) > 10 * tol * (1 + abs(fd_)) + 1e-9:
+                    rep.violate(f"{solver}: dense and CSC input give different results for the same budget",
+                                dict(sig, kind="format-mismatch"), case=case.describe(),
+                                impl_output=dict(dense=wd.tolist(), csc=ws_.tolist()),
+                                oracle=dict(obj_dense=fd_, obj_csc=fs_))
+        else:
+            if d["out"][2] <= tol and s_["out"][2] <= tol and tol <= 1e-6 and solver == "GroupBCD":
+                fd_, fs_ = objective(case, wd), objective(case, ws_)
+                if abs(fd_ - fs_) > 1e-4 * (1 + abs(fd_)):
+                    rep.violate(f"{solver}: converged dense and CSC runs reach different objective values",
+                                dict(sig, kind="format-mismatch"), case=case.describe(),
+                                impl_output=dict(dense=wd.tolist(), csc=ws_.tolist()),
+                                oracle=dict(obj_dense=fd_, obj_csc=fs_))
+    return rep
+
+
+def run_formats(ctx, rep, n_quick=24, n_thorough=250):
+    solvers_ = ["AndersonCD", "ProxNewton", "GramCD", "GroupBCD", "MultiTaskBCD", "FISTA"]
+    n = ctx.n(n_quick, n_thorough)
+    tasks = [(ctx.prop, ctx.seed, s, ch, max(1, n // 2)) for s in solvers_ for ch in range(2)]
+    workers = min(len(tasks), max(1, (os.cpu_count() or 2) - 1))
+    with ProcessPoolExecutor(max_workers=workers) as ex:
+        for r in ex.map(_fmt_worker, tasks):
+            merge(rep, r)
